@@ -98,6 +98,50 @@ WHAT = {
            "a queue advanced by a non-multiple of its length, unequal slot counts, then partitioned and drained"),
 }
 
+# second wave: the authors were also told which changes already existed for the property, to force different root causes
+WHAT.update({
+ "W2C01_A": ("C01", "BimolecularPropensity same-species stochastic rate k*s*(s-1) without max(s-1, 0)", "a homodimer reaction, stochastic mode, a real-valued count strictly between 0 and 1"),
+ "W2C01_B": ("C01", "create_reaction writes the default 'species' string into the caller's parameter dict before copying it", "two mass-action reactions with different reactants built from one shared dict object"),
+ "W2C02_A": ("C02", "parse_expression caches compiled Term trees keyed by species *names* (not indices)", "two models in one process with the same expression and the same species names in a different declaration order"),
+ "W2C02_B": ("C02", "literal rational exponents built with C integer division (X^(1/2) -> X^0)", "an exponent written as a ratio of integer literals"),
+ "W2C03_A": ("C03", "create_reaction treats every species on both sides as a catalyst (left out of the update) even when the counts differ", "a species on both sides with different multiplicities (X -> 2X, 3A -> A)"),
+ "W2C03_B": ("C03", "_initialize sets initialized=True before check_parameters (a refused model stays flagged as initialised)", "a second attempt (interface / simulation) after a refused initialisation"),
+ "W2C04_A": ("C04", "the ODE right-hand side is bound to the interface prepared last, not to the one simulated", "several interfaces prepared before one of them is simulated with DeterministicSimulator.py_simulate"),
+ "W2C04_B": ("C04", "calculate_deterministic_derivative uses the stochastic propensities", "mass action with a repeated reactant (2A -> ...) in a deterministic simulation"),
+ "W2C05_A": ("C05", "SafeModelCSimInterface.compute_stochastic_propensities calls get_propensity (deterministic form)", "safe interface and a repeated reactant"),
+ "W2C05_B": ("C05", "SSASimulator treats Lambda < 1e-12 (instead of == 0) as absorbing", "very small rate constants with a correspondingly long time grid"),
+ "W2C06_A": ("C06", "MassActionPropensity.initialize merges only adjacent repeats of a species in the reactant string", "order >= 3 mass action whose repeated species is not adjacent in the reactant list (B, A, B)"),
+ "W2C06_B": ("C06", "ArrayDelayQueue.advance_time clears slot (start_index - 1) % num_cols in unsigned arithmetic", "a delay queue whose length is not a power of two and that wraps with entries pending"),
+ "W2C07_A": ("C07", "GeneralAssignmentRule.rule_volume_operation evaluates a parameter-target rule without the volume", "a parameter-assigning rule reading 'volume', a species rule reading that parameter, a volume != 1 mode"),
+ "W2C07_B": ("C07", "DelayVolumeSSASimulator works on the interface's initial-state array in place (no copy)", "a delay+volume run followed by any further simulation of the same model / interface"),
+ "W2C08_A": ("C08", "Model._create_vectors no longer clears c_delays", "initialise, add a reaction with a different delay, initialise again, simulate with the delay simulator"),
+ "W2C08_B": ("C08", "DelayVolumeSSASimulator: ascontiguousarray instead of copy of the initial state (model's initial condition overwritten)", "a delay+volume simulation, then inspecting or re-simulating the model"),
+ "W2C09_A": ("C09", "SSASimulator no longer sets rule_step=1 in the zero-total-propensity branch", "dt / ODE rules on a model whose reactions run out part-way through the run"),
+ "W2C09_B": ("C09", "AdditiveAssignmentRule accumulates directly into its (zeroed) target", "an additive rule whose target is one of its own summands (T = T + X)"),
+ "W2C10_A": ("C10", "DelaySSASimulator's delivery loop applies the delayed stoichiometry once per slot instead of once per queued firing", ">= 2 firings of one reaction landing in the same queue slot"),
+ "W2C10_B": ("C10", "normal_rv caches the second Box-Muller variate already scaled by the previous caller's mean / std", "two delay distributions with different parameters drawing alternately"),
+ "W2C11_A": ("C11", "SafeModelCSimInterface.compute_stochastic_volume_propensities ignores the volume", "safe interface, V != 1, a volume-dependent reaction"),
+ "W2C11_B": ("C11", "VolumeSSASimulator infers the divided flag from the loop position (division at the very last grid tick unflagged)", "division reported exactly at the last grid time"),
+ "W2C12_A": ("C12", "rule frequency annotation read with a \\w+ regex (2.5 -> 2)", "a rule whose firing time has a decimal point"),
+ "W2C12_B": ("C12", "exported parameter values rounded to 12 decimals", "a very small parameter value"),
+ "W2C13_A": ("C13", "import sums stoichiometries per species with '=' instead of '+='", "one reaction listing the same species in two speciesReference entries of one side"),
+ "W2C13_B": ("C13", "all rate-rule reactions share one propensity dict (last formula wins)", ">= 2 rate rules with different formulas"),
+ "W2C14_A": ("C14", "stochastic mass-action export subtracts the reactant's position instead of the falling-factorial offset", "stochastic export of mass action with a repeated reactant"),
+ "W2C14_B": ("C14", "the log-as-ln parser setting is applied to a throw-away copy of libsbml's defaults", "a general rate containing log()"),
+ "W2C15_A": ("C15", "set_init_species uses `sds[i].get(s) or default` (an explicit 0 is replaced by the model's value)", "an initial condition that sets a species to exactly 0 while the model's value is non-zero"),
+ "W2C15_B": ("C15", "the p-th root is applied per trajectory instead of once", ">= 2 trajectories and norm order >= 2"),
+ "W2C16_A": ("C16", "normalisation constants memoised per parameter name without invalidation", "the same interface evaluated again after its prior specification changed"),
+ "W2C16_B": ("C16", "the 'positive' flag is not reset per parameter in check_prior", "a flagged parameter followed by an unflagged one evaluated at a negative value inside its support"),
+ "W2C17_A": ("C17", "Model.__setstate__ no longer restores _dummy_param_counter", "copy a model that has numeric-literal parameters, then add a reaction with a numeric literal to the copy"),
+ "W2C17_B": ("C17", "VolumeCellState.__reduce__ rebuilds through the constructor (DelayVolumeCellState loses its queue)", "a DelayVolumeCellState with pending delayed reactions"),
+ "W2C18_A": ("C18", "py_get_jacobian / py_get_sensitivity_to_parameter reuse a cached SensitivityAnalysis object (stale parameter snapshot)", "analyse, change parameter values, ask for a sensitivity on the same model object"),
+ "W2C18_B": ("C18", "compute_J skips the columns of species that no reaction consumes", "a catalyst or a regulator that is never consumed"),
+ "W2C19_A": ("C19", "truncate_timepoints_less_than uses ceil((value - t0) / dt) instead of scanning the grid", "a non-dyadic grid step and a division at an unlucky grid index"),
+ "W2C19_B": ("C19", "GeneralVolumeSplitter subtracts the whole first-daughter state from the second (duplicated species become 0)", "a GeneralVolumeSplitter with a non-empty 'duplicate' list"),
+ "W2C20_A": ("C20", "ArrayDelayQueue.copy() aliases the ring buffer (ascontiguousarray)", "a copy followed by a mutation of one queue and a read of the other"),
+ "W2C20_B": ("C20", "advance_time clears (start_index - 1) % num_cols in unsigned arithmetic", "a queue of 3 slots that wraps with an entry pending"),
+})
+
 
 def parse_log(path):
     confirm, runs = {}, {}
